@@ -39,7 +39,7 @@ REQUIRED_LABELS = ["printed form is accepted again", "print is a fixed point", "
 
 BD_ALPHA = "[]$<01|. "
 MIX_ALPHA = ".|%015 "
-NUM_FORMATS = ("int", "trailing-dot")  # besides the canonical float print
+NUM_FORMATS = ("int", "trailing-dot", "plain", "sci", "sci-short")  # besides the canonical float print; the last three are spellings of a float
 
 
 def bounds(tier):
@@ -177,7 +177,9 @@ def text_of(c, mv, s):
             out.append(it)
         elif isinstance(it, Num):
             v = c.eval_in(mv, it.v) if core.is_sym(it.v) else it.v
-            out.append(str(int(v)) if it.kind == "int" else repr(float(v)))
+            from symx.symstr import render_num
+
+            out.append(render_num(it, v))
         else:
             out.append(chr(c.eval_in(mv, SymInt(it.e))))
     return "".join(out)
@@ -293,7 +295,11 @@ def templatize(c, text, hole=None):
                     vals.append(0.0)
                 else:
                     n += 1
-                    if ints or fmt:
+                    if fmt in ("plain", "sci", "sci-short") and not ints:
+                        # another spelling of the same float: positional decimal / exponent notation
+                        v = c.fresh_real(f"n{n}", 1e-6, 1e8)
+                        parts.append(Num(v, "float", fmt))
+                    elif ints or fmt:
                         v = c.fresh_int(f"n{n}", 1, 10**7)
                         parts.append(Num(v, "int"))
                         if fmt == "trailing-dot":
